@@ -417,6 +417,25 @@ func genBase(rt *rapid.T) base {
 
 var wrongTypes = []interface{}{true, false, 0, 1, "x", "", []interface{}{}, tree{}, []interface{}{"aes-128-ctr"}, tree{"iv": "00"}, 1.5, "32", raw("-0")}
 
+// freshValue deep-copies the containers of a table value.
+func freshValue(v interface{}) interface{} {
+	switch t := v.(type) {
+	case tree:
+		c := tree{}
+		for k, e := range t {
+			c[k] = freshValue(e)
+		}
+		return c
+	case []interface{}:
+		c := make([]interface{}, len(t))
+		for i, e := range t {
+			c[i] = freshValue(e)
+		}
+		return c
+	}
+	return v
+}
+
 type field struct {
 	path []string // containers from the root
 	key  string
@@ -470,7 +489,9 @@ func mutateField(rt *rapid.T, l string, doc tree, b base, f field, allowRisky bo
 		m[f.key] = nil
 		return "null:" + f.kind, false
 	case 2:
-		m[f.key] = rapid.SampledFrom(wrongTypes).Draw(rt, l+".wrongType")
+		// a fresh copy: the table holds maps and slices, and a document must never share (or, after a
+		// later mutation, contain itself through) a container that lives in a package-level table
+		m[f.key] = freshValue(rapid.SampledFrom(wrongTypes).Draw(rt, l+".wrongType"))
 		return "wrong-type:" + f.kind, false
 	case 3: // same member under a different letter case (and the original removed)
 		v, ok := m[f.key]
